@@ -49,7 +49,7 @@ def gen_case(run, i):
     nsb, nrb = rng.choice([(1, 1), (2, 3), (3, 3), (3, 4)])
     if i % 8 == 6:
         nsb, nrb = rng.choice([(4, 4), (4, 5), (3, 3)])   # byte outputs with 3 / 4 bands: layouts GDAL may take for RGB(A)
-    sel = ['default', 'ref-order', 'subset'][(i // 4) % 3] if nsb > 1 else 'default'
+    sel = ['default', 'ref-order', 'subset', 'forced'][(i // 4) % 4] if nsb > 1 else 'default'
     return dict(i=i, family=family, crs=crs, proc=proc, src=src.to_dict(), ref=ref.to_dict(), nsb=nsb, nrb=nrb, sel=sel,
                 south=south, model=rng.choice(['gain', 'gain-blk-offset', 'gain-offset']),
                 kernel=rng.choice([(3, 3), (3, 5), (5, 3)]), halvings=rng.choice([0, 2]),
@@ -91,6 +91,13 @@ def run(run: common.Run):
         if case['sel'] == 'subset' and nsb > 1:
             kk = rng.randint(1, nsb - 1)
             sb = sorted(rng.sample(range(1, nsb + 1), kk))
+        force = False
+        if case['sel'] == 'forced' and nsb > 1:
+            # the user pairs the bands by hand, against the wavelengths, and forces it: the outputs describe THAT pairing
+            sb, force = list(range(1, nsb + 1)), True
+            rb = rng.sample(range(1, nrb + 1), nsb)
+            if rb == [order.index(k - 1) + 1 for k in sb]:
+                rb = rb[1:] + rb[:1]
         stags = [{'center_wavelength': f'{w:.4f}'} for w in swl]
         rtags = [{'center_wavelength': f'{w:.4f}', 'name': f'REFB{p + 1}', 'scale': '0.0001'} for p, w in enumerate(rwl)]
         rdesc = [f'RD{p + 1}' for p in range(nrb)]
@@ -107,7 +114,7 @@ def run(run: common.Run):
                 proc_ref = (case['proc'] == 'ref') or (case['proc'] == 'auto' and src.px <= ref.px)
                 res, hv = fusion.run_fuse_blocks(case['halvings'], src, ref, proc_ref, pair.src_path, pair.ref_path, d / 'out.tif',
                                                  model=case['model'], kernel_shape=case['kernel'], proc_crs=case['proc'], param=True,
-                                                 threads=case['threads'], src_bands=sb, ref_bands=rb,
+                                                 threads=case['threads'], src_bands=sb, ref_bands=rb, force=force,
                                                  out_profile=dict(dtype=case['dtype'], nodata={'float32': float('nan'), 'int16': -9999, 'uint8': 0}[case['dtype']]))
                 outs[variant] = (res, pair)
         except BlockSizeError:
@@ -137,6 +144,9 @@ def run(run: common.Run):
         # expected matching: source band k <-> reference position holding wavelength ~ k
         exp_src = sb or list(range(1, nsb + 1))
         exp_ref = [order.index(k - 1) + 1 for k in exp_src]
+        if force:
+            exp_ref = list(rb)
+            run.hist['forced band pairing against the wavelengths'] += 1
         if not bad and (list(res.src_bands) != exp_src or matched_r != exp_ref):
             bad = f'matched bands {list(res.src_bands)}->{matched_r}, wavelengths imply {exp_src}->{exp_ref}'
         if not bad:
